@@ -354,7 +354,10 @@ Definition check_case (c : c08case) : bool :=
       (pkl =? PUB_LEN) && (skl =? SEC_LEN) && (sgl =? SIG_LEN) && sok && verdict_eqb own VTrue && stable
   | CPrim kind obs => if kind =? 0 then verdict_eqb obs VTrue else negb (is_true obs)
   | CSweep _ nbits rej => rej =? nbits
-  | CIp _ n ht vt obs => verdict_eqb (ipnode_verify (tab_H ht) (tab_V vt) n) obs
+  | CIp genuine n ht vt obs =>
+      (* a genuine node id comes from `generate`: its freshness salt has the generated width *)
+      verdict_eqb (ipnode_verify (tab_H ht) (tab_V vt) n) obs &&
+      (if genuine then len (n_salt n) =? SIG_IP_SALT_LEN else true)
   | CUpdSig _ keys now kid msg sg bt vt obs =>
       sresult_eqb (verify_signature (tab_V vt) (tab_B bt) keys now kid msg sg) obs
   | CUpdFile _ keys now cont exp kid sg bt ht vt obs =>
